@@ -378,3 +378,34 @@ func replayOracle(id string, ti int) eng.Oracle {
 		return eng.OK(r.Outcome, true)
 	}
 }
+
+// raceReplayOracle re-runs the free-running pass of one system under the race detector.
+func raceReplayOracle(id string, ti int, runs int) eng.Oracle {
+	return func(in string) eng.Res {
+		var w witness
+		if err := json.Unmarshal([]byte(in), &w); err != nil {
+			return eng.Bad("bad-witness", err.Error())
+		}
+		dir := filepath.Join(eng.Root, ".scratch", id+"-replay")
+		defer os.RemoveAll(dir)
+		b, err := prepare(dir, true, ti)
+		if err != nil {
+			fmt.Fprintln(os.Stderr, "HARNESS ERROR:", err)
+			os.Exit(2)
+		}
+		j := w.Job
+		if j.P.Dir != "" {
+			j.P.Dir = filepath.Join(dir, "files")
+		}
+		if j.RaceRuns == 0 {
+			j.RaceRuns = runs
+		}
+		for k := 0; k < 5; k++ {
+			_, se, _ := runInst(b.bin, "race", j, append(os.Environ(), "GORACE=halt_on_error=1 exitcode=66"), 4*time.Minute)
+			if rep := firstRaceReport(se); rep != "" {
+				return eng.Bad(raceClass(rep), clipTail(rep, 3500))
+			}
+		}
+		return eng.OK("no race report in 5 free-running passes", true)
+	}
+}
